@@ -2,7 +2,8 @@
 //! one length, offset, key, type id, bitmap or buffer (pairs in the thorough tier), read through every access
 //! path (deserialize_any, the natural typed target with and without its Option layer, alternative targets),
 //! under catch_unwind.  The case carries the corrupted view, the base view and the implementation's results
-//! on both, so that the driver can decide "error, or the values the view as it stands designates, or untouched".
+//! on both, so that the driver can decide "error, or the values the view as it stands designates, or untouched";
+//! a case with two corruptions also carries the two views that have one of them each (`alts`).
 use crate::lgen;
 use crate::readx;
 use crate::rng::Rng;
@@ -424,6 +425,76 @@ fn top_len(view: &Value) -> u64 {
     }
 }
 
+/// paths of the `BytesView` nodes of a view tree that have exactly ONE data buffer, with the positions of their
+/// non-inline elements (descriptor length > 12: the only elements whose buffer index is read)
+fn single_buffer_views(root: &Value, path: &Path, out: &mut Vec<(Path, Vec<usize>)>) {
+    let node = at(root, path);
+    match node["a"].as_str().unwrap_or("") {
+        "BytesView" => {
+            if node["buffers"].as_array().map(|b| b.len()) == Some(1) {
+                let long: Vec<usize> = node["views"].as_array().unwrap().iter().enumerate()
+                    .filter(|(_, d)| d.as_str().unwrap().parse::<u128>().unwrap() & 0xFFFF_FFFF > 12)
+                    .map(|(k, _)| k).collect();
+                if !long.is_empty() {
+                    out.push((path.clone(), long));
+                }
+            }
+        }
+        "Struct" => {
+            for k in 0..node["fields"].as_array().unwrap().len() {
+                single_buffer_views(root, &sub(path, &[json!("fields"), json!(k), json!(1)]), out);
+            }
+        }
+        "List" | "FixedSizeList" => single_buffer_views(root, &sub(path, &[json!("elements")]), out),
+        "Map" => {
+            single_buffer_views(root, &sub(path, &[json!("keys")]), out);
+            single_buffer_views(root, &sub(path, &[json!("values")]), out);
+        }
+        "Union" => {
+            for k in 0..node["fields"].as_array().unwrap().len() {
+                single_buffer_views(root, &sub(path, &[json!("fields"), json!(k), json!(2)]), out);
+            }
+        }
+        _ => {}
+    }
+}
+
+/// corruptions of the BUFFER INDEX only (bits 64..96 of the descriptor) of non-inline elements of view arrays with
+/// one data buffer: offset and length keep designating bytes that exist in buffer 0, the index names a buffer the
+/// view does not have (1: the first index out of range; 2; u32::MAX)
+fn buffer_index_mutations(root: &Value, out: &mut Vec<Mutation>) {
+    let mut nodes = Vec::new();
+    single_buffer_views(root, &Vec::new(), &mut nodes);
+    for (path, long) in nodes {
+        let views = at(root, &path)["views"].as_array().unwrap();
+        let p = sub(&path, &[json!("views")]);
+        for k in long {
+            let d: u128 = views[k].as_str().unwrap().parse().unwrap();
+            for (class, nd) in [("buf+1", d.wrapping_add(1u128 << 64)), ("buf+2", d.wrapping_add(2u128 << 64)), ("buf-max", d | (0xFFFF_FFFFu128 << 64))] {
+                let mut a = views.clone();
+                a[k] = json!(nd.to_string());
+                out.push(Mutation { class: format!("view/{class}"), path: p.clone(), new: Value::Array(a) });
+            }
+        }
+    }
+}
+
+/// the fields of the directed block: a view column on its own and under every kind of parent
+fn view_shape_field(shape: usize, leaf: &str) -> Value {
+    let leaf_dt = json!({"t": leaf});
+    let el = |nullable: bool| lgen::mk_field("element", nullable, leaf_dt.clone());
+    let dt = match shape % 7 {
+        0 => leaf_dt.clone(),
+        1 => lgen::list_dt("List", el(true), 0),
+        2 => json!({"t": "Struct", "fields": [lgen::mk_field("s", false, leaf_dt.clone()), lgen::mk_field("n", true, json!({"t": "Int32"}))]}),
+        3 => lgen::list_dt("LargeList", el(false), 0),
+        4 => lgen::map_dt(json!({"t": "Utf8"}), lgen::mk_field("value", true, leaf_dt.clone())),
+        5 => lgen::list_dt("List", lgen::mk_field("element", false, json!({"t": "Struct", "fields": [lgen::mk_field("v", true, leaf_dt.clone())]})), 0),
+        _ => lgen::list_dt("FixedSizeList", el(false), 2),
+    };
+    json!({"name": "c", "nullable": shape % 2 == 1, "meta": [], "dt": dt})
+}
+
 pub fn gen(ctx: &Ctx) -> Vec<Value> {
     let mut rng = Rng::new(ctx.seed ^ 0xC0_22_17);
     let nbase = if ctx.thorough() { 1200 } else { 150 };
@@ -431,6 +502,43 @@ pub fn gen(ctx: &Ctx) -> Vec<Value> {
     let leafs = lgen::all_leaf_types();
     let mut out = Vec::new();
     let mut c = 0usize;
+    // one case: the base view, the corruption(s) applied to it, the reads
+    let mut emit = |out: &mut Vec<Value>, r: &mut Rng, field: &Value, n: usize, base: &Value, muts: &[Mutation], k: usize, pairs: bool| {
+        let m = &muts[k];
+        let mut r2 = r.fork();
+        let sub_seed = r2.0;
+        let mut view = base.clone();
+        *at_mut(&mut view, &m.path) = m.new.clone();
+        let mut class = m.class.clone();
+        let mut where_ = path_text(&m.path);
+        let mut alts: Vec<Value> = Vec::new();
+        // pairs (thorough tier): a second, moderate corruption somewhere else
+        if pairs && r2.chance(1, 4) {
+            let m2 = &muts[r2.usize(muts.len())];
+            let moderate = !(m2.class.contains("max") || m2.class.contains("min"));
+            let n = m.path.len().min(m2.path.len());
+            let nested = m.path[..n] == m2.path[..n]; // one site inside the other: the second write could miss
+            if moderate && !nested && !m.class.contains("max") {
+                // the two views with ONE of the corruptions each (`alts`): a read that looks at only one of the two
+                // sites is explained by the view that has only that corruption
+                let view1 = view.clone();
+                let mut view2 = base.clone();
+                *at_mut(&mut view2, &m2.path) = m2.new.clone();
+                alts = vec![view1, view2];
+                *at_mut(&mut view, &m2.path) = m2.new.clone();
+                class = format!("{}&{}", class, m2.class);
+                where_ = format!("{}&{}", where_, path_text(&m2.path));
+            }
+        }
+        let reads = reads_for(&mut r2, field, n, top_len(&view));
+        let mut case = json!({"id": format!("corrupt-{c:06}"), "seed": sub_seed, "fm": wiregen::fmeta(field), "corruption": class, "at": where_,
+                              "base": base, "view": view, "reads": reads});
+        if !alts.is_empty() {
+            case["alts"] = Value::Array(alts);
+        }
+        out.push(case);
+        c += 1;
+    };
     for b in 0..nbase {
         let mut r = rng.fork();
         // grid first: every leaf type on its own and under every container, then random nesting
@@ -452,29 +560,41 @@ pub fn gen(ctx: &Ctx) -> Vec<Value> {
         let mut order: Vec<usize> = (0..muts.len()).collect();
         r.shuffle(&mut order);
         for &k in order.iter().take(per_base) {
-            let m = &muts[k];
-            let mut r2 = r.fork();
-            let sub_seed = r2.0;
-            let mut view = base.clone();
-            *at_mut(&mut view, &m.path) = m.new.clone();
-            let mut class = m.class.clone();
-            let mut where_ = path_text(&m.path);
-            // pairs (thorough tier): a second, moderate corruption somewhere else
-            if ctx.thorough() && r2.chance(1, 4) {
-                let m2 = &muts[r2.usize(muts.len())];
-                let moderate = !(m2.class.contains("max") || m2.class.contains("min"));
-                let n = m.path.len().min(m2.path.len());
-                let nested = m.path[..n] == m2.path[..n]; // one site inside the other: the second write could miss
-                if moderate && !nested && !m.class.contains("max") {
-                    *at_mut(&mut view, &m2.path) = m2.new.clone();
-                    class = format!("{}&{}", class, m2.class);
-                    where_ = format!("{}&{}", where_, path_text(&m2.path));
-                }
+            emit(&mut out, &mut r, &field, n, &base, &muts, k, ctx.thorough());
+        }
+    }
+    // directed block (seeded regression c17e: a `single data buffer` fast path that no longer looks the buffer index
+    // up): Utf8View / BinaryView with exactly ONE data buffer and a non-inline element (> 12 bytes), on its own and
+    // under List / LargeList / FixedSizeList / Struct / Map, corruption of the BUFFER INDEX only (1, 2, u32::MAX),
+    // plus a few of the other corruptions of the same base
+    let nview = if ctx.thorough() { 280 } else { 56 };
+    for b in 0..nview {
+        let mut r = rng.fork();
+        let field = view_shape_field(b / 2, if b % 2 == 0 { "Utf8View" } else { "BinaryView" });
+        let mut found = None;
+        for _ in 0..40 {
+            let n = *r.pick(&[1usize, 2, 3, 5]);
+            let rows = lgen::gen_rows(&mut r, &field, n);
+            let free = r.chance(1, 2);
+            let base = wiregen::encode(&mut r, &field, &rows, free);
+            let mut muts = Vec::new();
+            buffer_index_mutations(&base, &mut muts);
+            if !muts.is_empty() {
+                found = Some((n, base, muts));
+                break;
             }
-            let reads = reads_for(&mut r2, &field, n, top_len(&view));
-            out.push(json!({"id": format!("corrupt-{c:06}"), "seed": sub_seed, "fm": wiregen::fmeta(&field), "corruption": class, "at": where_,
-                            "base": base, "view": view, "reads": reads}));
-            c += 1;
+        }
+        let Some((n, base, mut muts)) = found else { continue };
+        let ndirected = muts.len();
+        collect(&mut r, &base, &Vec::new(), &mut muts);
+        let mut order: Vec<usize> = (0..ndirected).collect();
+        r.shuffle(&mut order);
+        for &k in order.iter().take(4) {
+            emit(&mut out, &mut r, &field, n, &base, &muts, k, ctx.thorough());
+        }
+        for _ in 0..2 {
+            let k = ndirected + r.usize(muts.len() - ndirected);
+            emit(&mut out, &mut r, &field, n, &base, &muts, k, false);
         }
     }
     out
